@@ -299,9 +299,43 @@ def run(ctx):
                'after the job runner returned %s' % ('nothing in the caller can append another job_ended' if not again else
                                                      '%s can append a SECOND continuity_job_ended for a job the runner already ended' % again[0].name), line=again[0].line if again else s.line)
 
+    # ---------------------------------------------------------------- C07.7
+    ctx.rule('C07.7', 'a session stream starts with its start frame at seq 0: every Session is constructed with the constant seq 0 and stage Start; stage Start yields SessionStarted; in run_session the first emission is that kernel frame (the emit of the first next_event() dominates every other emit, tool run, checkpoint and the provider loop).')
+    for cpath in ('rip_kernel::Session::new', 'rip_kernel::Session::with_id'):
+        cf = P.fn(cpath)
+        ctx.touch(cf)
+        ags = cf.aggregates(r'^rip_kernel::Session$')
+        okc = False
+        for (bi, si, st) in ags:
+            rv = st['rv']
+            k = op_const(rv['a'][rv['fields'].index('seq')])
+            so = cf.origin(rv['a'][rv['fields'].index('stage')])
+            okc = k is not None and k.get('v') == '0' and so[0] == 'rv' and so[1].get('variant') == 'Start'
+        ctx.ob('C07.7', cf, 'session-starts-at-0', okc and len(ags) == 1, 'a new Session has seq 0 and stage Start', line=cf.line)
+    others = [s for s in P.callers(r'^rip_kernel::Session::set_seq$') if s.fn is not rs]
+    ctx.ob('C07.7', 'workspace', 'seq-setter-callers', not others, 'Session::set_seq is only called from run_session (%d other caller(s))' % len(others))
+    first_next = [s for s in rs.calls(r'^rip_kernel::Session::next_event$') if not rs.in_loop(s.bb)]
+    emits_all = rs.calls(r'^ripd::session::emit_events?$')
+    if not first_next:
+        raise CheckError('C07.7: run_session does not take the first kernel frame before its main match')
+    fn0 = first_next[0]
+    first_emit = [e for e in rs.calls(r'^ripd::session::emit_event$') if fn0.dest['l'] in _reads(rs, e.args[0]) and rs.dom(fn0.bb, e.bb)]
+    ctx.ob('C07.7', rs, 'start-frame-emitted', bool(first_emit), 'the first kernel frame (SessionStarted) is emitted', line=fn0.line)
+    if first_emit:
+        fe = first_emit[0]
+        later = [x for x in emits_all if x is not fe] + rs.calls(r'ToolRunner::(run|create_checkpoint|rewind_checkpoint)$') + rs.calls(r'^ripd::session::run_openresponses_agent_loop$')
+        # the start frame is skipped only when next_event() returned None (cannot happen in stage Start)
+        notdom = [x for x in later if not rs.dom(fn0.bb, x.bb) or rs.can_reach(x.bb, fe.bb)]
+        ctx.ob('C07.7', rs, 'start-frame-first', not notdom, 'every other emission / tool run / provider loop comes after the start frame', line=fe.line)
+
     # ---------------------------------------------------------------- C07.6
     hooks = [s for s in P.callers(r'^rip_kernel::Runtime::register_hook$|^rip_kernel::hooks::HookEngine::register$') if not s.fn.path.startswith('rip_kernel::')]
     ctx.ob('C07.6', 'workspace', 'no-production-hooks', not hooks, 'Runtime::register_hook callers outside rip_kernel: %s' % [s.fn.path for s in hooks])
+
+
+def _reads(f, op):
+    from ..prov import reads_locals
+    return reads_locals(f, op)
 
 
 def result_switch(f, site):
